@@ -227,8 +227,8 @@ pub fn run(r: &Report) {
     r.note("reference_pinned_vectors_checked", json!(n_ref));
 
     let int_text = vec![types::nat(refv::Native::Int), types::nat(refv::Native::Text)];
-    let partners: Vec<Type> = if thorough { types::natives() } else { int_text.clone() };
-    let dims_d2: Vec<u16> = if thorough { vec![0, 1, 2, 3] } else { vec![1, 2] };
+    let partners: Vec<Type> = if thorough { types::natives() } else { [refv::Native::Int, refv::Native::Text, refv::Native::Varint, refv::Native::Boolean].iter().map(|n| types::nat(*n)).collect() };
+    let dims_d2: Vec<u16> = vec![0, 1, 2, 3];
 
     let mut work: Vec<Work> = Vec::new();
     for t in types::natives() {
@@ -252,7 +252,7 @@ pub fn run(r: &Report) {
             }
         }
         // depth 3: constructors applied three times over the class representatives int / text
-        let reps3 = vec![types::nat(refv::Native::Int), types::nat(refv::Native::Text), types::nat(refv::Native::Varint)];
+        let reps3 = types::class_reps6();
         for t in types::depth1_over(&reps3, &[1, 2], false) {
             d3_roots += 1;
             work.push(Work::Derived(t, true));
@@ -309,7 +309,7 @@ pub fn run(r: &Report) {
     r.counters.add("short_udt_alternative_encodings_decoded", st.alt_decodes.load(Ordering::Relaxed));
     r.note("max_type_depth", json!(max_depth.load(Ordering::Relaxed)));
     r.set_rule(
-        "E-ENUM, dynamic value type. Column types: 20 natives; depth 1 = list/set/vector(dim 0..3) of every native, map of every native pair, tuple+UDT arity 0,1,2 (all), 3 (all triples over int,text,boolean,varint,uuid,duration + (n,int,text)); depth 2 = list/set/vector/map/tuple/UDT constructors over every depth-1 type with partner types {int,text} (quick; vector dim 1,2) or all natives (thorough; dim 0..3); thorough adds all 8000 arity-3 tuples and UDTs over the natives, depth 3 (constructors applied three times, partners int/text) over the class representatives int/text/varint and uses the full native alphabets down to nesting level 2. Values per type: the listed boundary alphabet (numeric MIN/-1/0/1/MAX, NaN payloads, -0.0, multi-byte UTF-8, strings/blobs of 0/1/127/128/16386 bytes, durations at every vint length 1..9, non-normalised and zero-length varints, decimals with negative scale), every container shape (empty, each singleton, pair, triple; every tuple/UDT position x every value, every null pattern, every shorter tuple, every UDT omission pattern, reversed UDT naming order), null, not-set, zero-length empty. Oracle: crate::refvalue (bytes equal incl. length prefix; decode == canonical form). distinct_nontrivial = accepted cases of composite types with a non-null, non-empty value.",
+        "E-ENUM, dynamic value type. Column types: 20 natives; depth 1 = list/set/vector(dim 0..3) of every native, map of every native pair, tuple+UDT arity 0,1,2 (all), 3 (all triples over int,text,boolean,varint,uuid,duration + (n,int,text)); depth 2 = list/set/vector/map/tuple/UDT constructors over every depth-1 type with partner types {int,text,varint,boolean} (quick) or all natives (thorough), vector dim 0..3; thorough adds all 8000 arity-3 tuples and UDTs over the natives, depth 3 (constructors applied three times, partners int/text) over the six class representatives int/text/boolean/varint/uuid/duration and uses the full native alphabets down to nesting level 2. Values per type: the listed boundary alphabet (numeric MIN/-1/0/1/MAX, NaN payloads, -0.0, multi-byte UTF-8, strings/blobs of 0/1/127/128/16386 bytes, durations at every vint length 1..9, non-normalised and zero-length varints, decimals with negative scale), every container shape (empty, each singleton, pair, triple; every tuple/UDT position x every value, every null pattern, every shorter tuple, every UDT omission pattern, reversed UDT naming order), null, not-set, zero-length empty. Oracle: crate::refvalue (bytes equal incl. length prefix; decode == canonical form). distinct_nontrivial = accepted cases of composite types with a non-null, non-empty value.",
     );
     r.set_exhaustive(true);
     r.assume("vector element widths follow Cassandra 5.0's fixed-length table (boolean 1, int/float 4, bigint/double/timestamp 8, uuid/timeuuid 16; vector of fixed = width x dim); everything else is unsigned-vint length prefixed");
